@@ -13,7 +13,7 @@ NS_NAMES = ['na', 'nb', 'nc', 'nd', 'ne', 'nf', 'ng', 'nh', 'ni', 'nj', 'nk', 'n
 TASK_NAMES = ['alfa', 'bravo', 'cargo', 'delta', 'echo', 'fokus', 'golf', 'hotel', 'india', 'joker', 'kilo', 'lima',
               'mike', 'oskar', 'papa', 'quebec', 'romeo', 'sigma', 'tango', 'ultra', 'viktor', 'whisky', 'xray', 'yankee', 'zulu']
 GROUPS = [None, None, 'grp', 'gx:gy', 'MOD', 'DMOD', 'hh']
-SAFE_CHARS = 'abcdefghijklmnopqrstuvwxyzABCDXYZ0123456789 _-.'
+SAFE_CHARS = 'abcdefghijklmnopqrstuvwxyzABCDXYZ0123456789 _-.' + '\\\t\x7f'    # (backslash, tab, DEL: rendered as they are in release 1.4.0's keys; no quotes - F6)
 
 
 def camel(name):
